@@ -338,6 +338,8 @@ SUPP_TXT = [
     '!',
     '! trailing digit 1\n! trailing digit 4',
     '!' + ' ' * 78 + '1',
+    ('! END of THERMO block').ljust(79) + '4',
+    ('!END').ljust(79) + '1' + '\n' + ('! THERMO').ljust(79) + '2',
     '! TRENDS\n! 1 2 3\n',
 ]
 
@@ -480,6 +482,8 @@ def directed(tier):
     D.append(F([CH4, H2O], supp_txt=SUPP_TXT[5], output='string'))
     D.append(F([CH4], supp_txt=SUPP_TXT[6], supp=[gen_supp(rng, 2)], read_format='dict'))
     D.append(F([CH4, OK], supp_txt=SUPP_TXT[9] + '\n' + SUPP_TXT[3] + '\n' + SUPP_TXT[4]))
+    D.append(F([CH4, S('PENDANT', [('C', 10), ('H', 22)]), OK], supp_txt=SUPP_TXT[10] + '\n' + SUPP_TXT[11],
+               write_date=True))
     # 27-28 200 species
     rng = random.Random('C05:directed:200')
     names = ['SP%d%s' % (i, rng.choice(['', '(S)', '*', '-a'])) for i in range(200)]
